@@ -46,10 +46,149 @@ fn host_limit(err: &str, tname: &str) -> Option<&'static str> {
     None
 }
 
+/// One chain t0 -> t1 -> t2 in one environment: whatever pair the checker accepts, values of the subtype
+/// must decode at the supertype, as a value of it, equal to the spec's coercion.
+fn chain_case(ctx: &mut Ctx, rng: &mut Rng, env: &REnv, ts: &[RType; 3]) {
+    let vg = ValGen::new(&env);
+    let (cenv, _) = candid_side(&env, &[], None);
+    let pairs = [(0usize, 1usize), (1, 2), (0, 2)];
+    let mut accepted = [[false; 3]; 3];
+    for (a, b) in pairs {
+        let Some(ok) = checker_accepts(&env, &ts[a], &ts[b]) else {
+            ctx.violation("panic|subtype", "the subtype check panicked", json!({"env": env.to_string(), "t": ts[a].to_string(), "u": ts[b].to_string()}));
+            return;
+        };
+        accepted[a][b] = ok;
+        ctx.count(if ok { "cover:checker-accepts" } else { "cover:checker-rejects" });
+    }
+    // values of the subtype, encoded at it by candid's own encoder
+    let n_vals = 3;
+    for (a, b) in pairs {
+        if !accepted[a][b] || !encodable(&env, &ts[a]) || !vg.inhabited(&ts[a]) {
+            continue;
+        }
+        for _ in 0..n_vals {
+            let mut fuel = *rng.pick(&[4i64, 20, 50]);
+            let Some(v) = vg.gen(rng, &ts[a], &mut fuel) else { continue };
+            let Ok(idl) = to_idl(&env, &ts[a], &v, None) else { continue };
+            let ca = to_candid_type(&ts[a], None);
+            let cb = to_candid_type(&ts[b], None);
+            let args = IDLArgs { args: vec![idl] };
+            let input = |bytes: &[u8]| {
+                json!({"env": env.to_string(), "subtype": ts[a].to_string(), "supertype": ts[b].to_string(),
+                       "value": v.to_string().chars().take(600).collect::<String>(), "bytes": hex(bytes)})
+            };
+            let bytes = match catch(|| args.to_bytes_with_types(&cenv, std::slice::from_ref(&ca))) {
+                Ok(Ok(b)) => b,
+                _ => {
+                    ctx.count("excluded:encode-failed(C10)");
+                    continue;
+                }
+            };
+            // the reference decoder agrees on what was sent
+            let Ok(d) = decode(&bytes) else {
+                ctx.count("excluded:reference-cannot-read(C03)");
+                continue;
+            };
+            let got = catch(|| IDLArgs::from_bytes_with_types_with_config(&bytes, &cenv, std::slice::from_ref(&cb), &quota()));
+            let shape_pair = format!("{}|{}", shape(&env, &ts[a], 3), shape(&env, &ts[b], 3));
+            match got {
+                Err(p) => ctx.violation(&format!("panic|decode-at-supertype|{}", p.sig()), &p.message, input(&bytes)),
+                Ok(Err(e)) if format!("{e:?}").contains("cost exceeds the limit") => ctx.count("excluded:guard-quota"),
+                Ok(Err(e)) => {
+                    // the spec's coercion has no finite derivation for some accepted pairs (a non-optional value at
+                    // `type O = opt O`): implementations run into their nesting limit there (spec suite: "fix opt")
+                    let wenv = normalize_wire(&d.env);
+                    let mut hits = Hits::new();
+                    let diverges = {
+                        let mut c = Coercer::new(&wenv, &env, &mut hits);
+                        matches!(c.coerce(&d.values[0], &d.types[0], &ts[b]), Err(f) if f.1)
+                    };
+                    if diverges {
+                        ctx.count("excluded:coercion-diverges");
+                        continue;
+                    }
+                    // is the pair really in the relation? if not, the *checker* is wrong (C05), still a C04 witness
+                    let really = r3::subtype(&env, &ts[a], &ts[b]);
+                    let mu = super::c10::mentions_mu_in_reference(&env, &ts[a]) || super::c10::mentions_mu_in_reference(&env, &ts[b]);
+                    let sig = if mu && really {
+                        "accepted-subtype-fails-to-decode|reference-type-mentions-self-containing-record".to_string()
+                    } else {
+                        format!("accepted-subtype-fails-to-decode|{}|{}", if really { "relation-holds" } else { "checker-accepts-non-subtype" }, err_class(&e))
+                    };
+                    ctx.violation(
+                        &sig,
+                        &format!("the checker accepts {} <: {} but a value of the subtype fails to decode at the supertype: {}", ts[a], ts[b], err_class(&e)),
+                        input(&bytes),
+                    )
+                }
+                Ok(Ok(res)) => {
+                    let rv = model_value(&res.args[0]);
+                    if !typed_as(&env, &rv, &ts[b]) {
+                        ctx.violation(
+                            &format!("result-not-of-supertype|{}", shape(&env, &ts[b], 2)),
+                            &format!("decoded {rv} which is not a value of {}", ts[b]),
+                            input(&bytes),
+                        );
+                    }
+                    // equals the spec's coercion
+                    let wenv = normalize_wire(&d.env);
+                    let mut hits = Hits::new();
+                    let want = {
+                        let mut c = Coercer::new(&wenv, &env, &mut hits);
+                        c.coerce(&d.values[0], &d.types[0], &ts[b])
+                    };
+                    match want {
+                        Ok(w) => {
+                            if let Some(df) = diff_all(std::slice::from_ref(&w), std::slice::from_ref(&rv)) {
+                                ctx.violation("result-differs-from-coercion", &format!("spec coercion (left) vs decoded (right): {df}"), input(&bytes));
+                            } else {
+                                ctx.count("agree:decodes-at-supertype");
+                            }
+                        }
+                        Err(f) if f.1 => ctx.count("excluded:coercion-diverges"),
+                        Err(f) => ctx.violation("decodes-but-coercion-fails", &format!("decoded {rv} but the spec coercion fails: {}", f.0), input(&bytes)),
+                    }
+                    // indirect via the intermediate type vs direct (only for the chain 0 -> 1 -> 2)
+                    if (a, b) == (0, 1) && accepted[1][2] {
+                        let c1 = to_candid_type(&ts[1], None);
+                        let c2 = to_candid_type(&ts[2], None);
+                        let step2 = catch(|| {
+                            res.to_bytes_with_types(&cenv, std::slice::from_ref(&c1))
+                                .and_then(|b1| IDLArgs::from_bytes_with_types_with_config(&b1, &cenv, std::slice::from_ref(&c2), &quota()))
+                        });
+                        let direct = catch(|| IDLArgs::from_bytes_with_types_with_config(&bytes, &cenv, std::slice::from_ref(&c2), &quota()));
+                        if let (Ok(Ok(ind)), Ok(Ok(dir))) = (&step2, &direct) {
+                            let (x, y) = (model_value(&ind.args[0]), model_value(&dir.args[0]));
+                            if !tilde(&reserved_null(&x), &reserved_null(&y)) {
+                                ctx.violation(
+                                    "indirect-differs-from-direct",
+                                    &format!("via {}: {x}; directly at {}: {y} — differ by more than optional values turning into null", ts[1], ts[2]),
+                                    input(&bytes),
+                                );
+                            } else {
+                                ctx.count("agree:indirect~direct");
+                            }
+                        } else if accepted[0][2] && matches!(direct, Ok(Err(_))) {
+                            // reported by the (0,2) pair itself
+                        } else if matches!(step2, Ok(Err(_))) && matches!(direct, Ok(Ok(_))) {
+                            ctx.count("observed:indirect-fails-direct-succeeds");
+                        }
+                    }
+                    if ts[a] != ts[b] {
+                        ctx.nontrivial(hash_str(&shape_pair));
+                    }
+                }
+            }
+        }
+    }
+    ctx.sample(|| json!({"env": env.to_string(), "chain": ts.iter().map(|t| t.to_string()).collect::<Vec<_>>(), "accepted": format!("{accepted:?}")}));
+}
+
 pub fn run(ctx: &mut Ctx) {
     let cfg = TypeCfg::default();
     // ---- untyped: chains t0 -> t1 -> t2 of upgrade steps ---------------------------------------------
-    ctx.cases("untyped-upgrade-chains", 0.6, |ctx, rng| {
+    ctx.cases("untyped-upgrade-chains", 0.5, |ctx, rng| {
         let env0 = gen_env(rng, &cfg);
         let t0s = gen_types(rng, &cfg, &env0, 1);
         let t0 = t0s[0].clone();
@@ -70,144 +209,42 @@ pub fn run(ctx: &mut Ctx) {
             return;
         }
         let ts = [t0.clone(), t1.shift_refs(o1), t2.shift_refs(o2)];
-        let vg = ValGen::new(&env);
-        let (cenv, _) = candid_side(&env, &[], None);
-        let pairs = [(0usize, 1usize), (1, 2), (0, 2)];
-        let mut accepted = [[false; 3]; 3];
-        for (a, b) in pairs {
-            let Some(ok) = checker_accepts(&env, &ts[a], &ts[b]) else {
-                ctx.violation("panic|subtype", "the subtype check panicked", json!({"env": env.to_string(), "t": ts[a].to_string(), "u": ts[b].to_string()}));
-                return;
-            };
-            accepted[a][b] = ok;
-            ctx.count(if ok { "cover:checker-accepts" } else { "cover:checker-rejects" });
-        }
-        // values of the subtype, encoded at it by candid's own encoder
-        let n_vals = 3;
-        for (a, b) in pairs {
-            if !accepted[a][b] || !encodable(&env, &ts[a]) || !vg.inhabited(&ts[a]) {
-                continue;
+        chain_case(ctx, rng, &env, &ts);
+    });
+    // ---- small scope: two mutually referring definitions per side from the C05 catalogue, related payloads ----
+    ctx.cases("small-scope-recursive-pairs", 0.15, |ctx, rng| {
+        let hp = crate::model::misc::label_hash;
+        let cat_at = |o: usize| super::c05::catalogue(&RType::Ref(o), &RType::Ref(o + 1), true);
+        let n = cat_at(0).len();
+        let i0 = [rng.usize(n), rng.usize(n)];
+        let pick_near = |rng: &mut Rng, i: usize| if rng.chance(2, 5) { i } else { rng.usize(n) };
+        let i1 = [pick_near(rng, i0[0]), pick_near(rng, i0[1])];
+        let i2 = [pick_near(rng, i1[0]), pick_near(rng, i1[1])];
+        let env = REnv(vec![
+            cat_at(0)[i0[0]].clone(), cat_at(0)[i0[1]].clone(),
+            cat_at(2)[i1[0]].clone(), cat_at(2)[i1[1]].clone(),
+            cat_at(4)[i2[0]].clone(), cat_at(4)[i2[1]].clone(),
+        ]);
+        let j = rng.below(7);
+        let payload = |o: usize| -> RType {
+            let (x, y) = (RType::Ref(o), RType::Ref(o + 1));
+            match j {
+                0 => x,
+                1 => y,
+                2 => RType::record(vec![(hp("p"), RType::opt(x)), (hp("q"), y)]),
+                3 => RType::record(vec![(hp("p"), RType::opt(RType::vec(x))), (hp("q"), y)]),
+                4 => RType::record(vec![(hp("p"), RType::opt(RType::record(vec![(hp("x"), x)]))), (hp("q"), y)]),
+                5 => RType::record(vec![(hp("p"), RType::opt(RType::vec(y))), (hp("q"), x)]),
+                _ => RType::variant(vec![(hp("p"), RType::opt(y)), (hp("q"), RType::vec(x))]),
             }
-            for _ in 0..n_vals {
-                let mut fuel = *rng.pick(&[4i64, 20, 50]);
-                let Some(v) = vg.gen(rng, &ts[a], &mut fuel) else { continue };
-                let Ok(idl) = to_idl(&env, &ts[a], &v, None) else { continue };
-                let ca = to_candid_type(&ts[a], None);
-                let cb = to_candid_type(&ts[b], None);
-                let args = IDLArgs { args: vec![idl] };
-                let input = |bytes: &[u8]| {
-                    json!({"env": env.to_string(), "subtype": ts[a].to_string(), "supertype": ts[b].to_string(),
-                           "value": v.to_string().chars().take(600).collect::<String>(), "bytes": hex(bytes)})
-                };
-                let bytes = match catch(|| args.to_bytes_with_types(&cenv, std::slice::from_ref(&ca))) {
-                    Ok(Ok(b)) => b,
-                    _ => {
-                        ctx.count("excluded:encode-failed(C10)");
-                        continue;
-                    }
-                };
-                // the reference decoder agrees on what was sent
-                let Ok(d) = decode(&bytes) else {
-                    ctx.count("excluded:reference-cannot-read(C03)");
-                    continue;
-                };
-                let got = catch(|| IDLArgs::from_bytes_with_types_with_config(&bytes, &cenv, std::slice::from_ref(&cb), &quota()));
-                let shape_pair = format!("{}|{}", shape(&env, &ts[a], 3), shape(&env, &ts[b], 3));
-                match got {
-                    Err(p) => ctx.violation(&format!("panic|decode-at-supertype|{}", p.sig()), &p.message, input(&bytes)),
-                    Ok(Err(e)) if format!("{e:?}").contains("cost exceeds the limit") => ctx.count("excluded:guard-quota"),
-                    Ok(Err(e)) => {
-                        // the spec's coercion has no finite derivation for some accepted pairs (a non-optional value at
-                        // `type O = opt O`): implementations run into their nesting limit there (spec suite: "fix opt")
-                        let wenv = normalize_wire(&d.env);
-                        let mut hits = Hits::new();
-                        let diverges = {
-                            let mut c = Coercer::new(&wenv, &env, &mut hits);
-                            matches!(c.coerce(&d.values[0], &d.types[0], &ts[b]), Err(f) if f.1)
-                        };
-                        if diverges {
-                            ctx.count("excluded:coercion-diverges");
-                            continue;
-                        }
-                        // is the pair really in the relation? if not, the *checker* is wrong (C05), still a C04 witness
-                        let really = r3::subtype(&env, &ts[a], &ts[b]);
-                        let mu = super::c10::mentions_mu_in_reference(&env, &ts[a]) || super::c10::mentions_mu_in_reference(&env, &ts[b]);
-                        let sig = if mu && really {
-                            "accepted-subtype-fails-to-decode|reference-type-mentions-self-containing-record".to_string()
-                        } else {
-                            format!("accepted-subtype-fails-to-decode|{}|{}", if really { "relation-holds" } else { "checker-accepts-non-subtype" }, err_class(&e))
-                        };
-                        ctx.violation(
-                            &sig,
-                            &format!("the checker accepts {} <: {} but a value of the subtype fails to decode at the supertype: {}", ts[a], ts[b], err_class(&e)),
-                            input(&bytes),
-                        )
-                    }
-                    Ok(Ok(res)) => {
-                        let rv = model_value(&res.args[0]);
-                        if !typed_as(&env, &rv, &ts[b]) {
-                            ctx.violation(
-                                &format!("result-not-of-supertype|{}", shape(&env, &ts[b], 2)),
-                                &format!("decoded {rv} which is not a value of {}", ts[b]),
-                                input(&bytes),
-                            );
-                        }
-                        // equals the spec's coercion
-                        let wenv = normalize_wire(&d.env);
-                        let mut hits = Hits::new();
-                        let want = {
-                            let mut c = Coercer::new(&wenv, &env, &mut hits);
-                            c.coerce(&d.values[0], &d.types[0], &ts[b])
-                        };
-                        match want {
-                            Ok(w) => {
-                                if let Some(df) = diff_all(std::slice::from_ref(&w), std::slice::from_ref(&rv)) {
-                                    ctx.violation("result-differs-from-coercion", &format!("spec coercion (left) vs decoded (right): {df}"), input(&bytes));
-                                } else {
-                                    ctx.count("agree:decodes-at-supertype");
-                                }
-                            }
-                            Err(f) if f.1 => ctx.count("excluded:coercion-diverges"),
-                            Err(f) => ctx.violation("decodes-but-coercion-fails", &format!("decoded {rv} but the spec coercion fails: {}", f.0), input(&bytes)),
-                        }
-                        // indirect via the intermediate type vs direct (only for the chain 0 -> 1 -> 2)
-                        if (a, b) == (0, 1) && accepted[1][2] {
-                            let c1 = to_candid_type(&ts[1], None);
-                            let c2 = to_candid_type(&ts[2], None);
-                            let step2 = catch(|| {
-                                res.to_bytes_with_types(&cenv, std::slice::from_ref(&c1))
-                                    .and_then(|b1| IDLArgs::from_bytes_with_types_with_config(&b1, &cenv, std::slice::from_ref(&c2), &quota()))
-                            });
-                            let direct = catch(|| IDLArgs::from_bytes_with_types_with_config(&bytes, &cenv, std::slice::from_ref(&c2), &quota()));
-                            if let (Ok(Ok(ind)), Ok(Ok(dir))) = (&step2, &direct) {
-                                let (x, y) = (model_value(&ind.args[0]), model_value(&dir.args[0]));
-                                if !tilde(&reserved_null(&x), &reserved_null(&y)) {
-                                    ctx.violation(
-                                        "indirect-differs-from-direct",
-                                        &format!("via {}: {x}; directly at {}: {y} — differ by more than optional values turning into null", ts[1], ts[2]),
-                                        input(&bytes),
-                                    );
-                                } else {
-                                    ctx.count("agree:indirect~direct");
-                                }
-                            } else if accepted[0][2] && matches!(direct, Ok(Err(_))) {
-                                // reported by the (0,2) pair itself
-                            } else if matches!(step2, Ok(Err(_))) && matches!(direct, Ok(Ok(_))) {
-                                ctx.count("observed:indirect-fails-direct-succeeds");
-                            }
-                        }
-                        if ts[a] != ts[b] {
-                            ctx.nontrivial(hash_str(&shape_pair));
-                        }
-                    }
-                }
-            }
-        }
-        ctx.sample(|| json!({"env": env.to_string(), "chain": ts.iter().map(|t| t.to_string()).collect::<Vec<_>>(), "accepted": format!("{accepted:?}")}));
+        };
+        let ts = [payload(0), payload(2), payload(4)];
+        ctx.count("cover:small-scope-chain");
+        chain_case(ctx, rng, &env, &ts);
     });
     // ---- native: pairs of corpus types whose Candid types the checker relates ----------------------
     let n_types = reg::len();
-    ctx.cases("native-pairs", 0.4, |ctx, rng| {
+    ctx.cases("native-pairs", 0.35, |ctx, rng| {
         let i = rng.usize(n_types);
         // bias the partner towards types that often are supertypes: same leaf under Option, Int for Nat, ...
         let j = rng.usize(n_types);
